@@ -110,6 +110,11 @@ pub const LADDERS: &[&str] = &[
 pub fn child_main() {
     let stdin = std::io::stdin();
     let stdout = std::io::stdout();
+    {
+        let mut o = stdout.lock();
+        let _ = writeln!(o, "ready");
+        let _ = o.flush();
+    }
     for line in stdin.lock().lines() {
         let Ok(line) = line else { break };
         let mut it = line.split(' ');
@@ -182,53 +187,74 @@ fn spawn_child() -> Child {
             }
         }
     });
+    // handshake: process start-up is not part of any case's budget
+    let _ = rx.recv_timeout(Duration::from_secs(60));
     Child { proc, stdin, lines: rx }
 }
 
 /// budget: generous constant + linear part (the property: "roughly linear time")
 pub fn budget(len: usize) -> Duration {
-    Duration::from_millis(1500) + Duration::from_micros((len as u64) * 40)
+    Duration::from_millis(3000) + Duration::from_micros((len as u64) * 40)
 }
 
+/// one attempt at one case with the given budget
+fn attempt(child: &mut Child, c: &Case, b: Duration) -> Outcome {
+    let line = format!("{} {} {}\n", level_name(c.level), c.doc as u8, hex(&c.text));
+    let sent = child.stdin.write_all(line.as_bytes()).and_then(|_| child.stdin.flush());
+    if sent.is_err() {
+        let _ = child.proc.kill();
+        let _ = child.proc.wait();
+        *child = spawn_child();
+        let _ = child.stdin.write_all(line.as_bytes()).and_then(|_| child.stdin.flush());
+    }
+    match child.lines.recv_timeout(b) {
+        Ok(l) => {
+            let f: Vec<&str> = l.split(' ').collect();
+            if f[0] == "ok" && f.len() >= 5 {
+                Outcome::Ok {
+                    errors: f[1].parse().unwrap_or(0),
+                    too_deep: f[2] == "1",
+                    lossless: f[3] == "1",
+                    micros: f[4].parse().unwrap_or(0),
+                }
+            } else {
+                Outcome::Panic
+            }
+        }
+        Err(std::sync::mpsc::RecvTimeoutError::Timeout) => {
+            let _ = child.proc.kill();
+            let _ = child.proc.wait();
+            *child = spawn_child();
+            Outcome::Timeout(b.as_millis())
+        }
+        Err(std::sync::mpsc::RecvTimeoutError::Disconnected) => {
+            let status = child.proc.wait().map(|s| format!("{s}")).unwrap_or_else(|e| format!("{e}"));
+            *child = spawn_child();
+            Outcome::Crash(status)
+        }
+    }
+}
+
+/// a case counts as over budget only if it is over budget three times in a row (the machine may
+/// be busy); crashes are retried once to tell a deterministic abort from a killed child
 pub fn run_cases(cases: &[Case]) -> Vec<Outcome> {
     let mut out = Vec::with_capacity(cases.len());
     let mut child = spawn_child();
     for c in cases {
-        let line = format!("{} {} {}\n", level_name(c.level), c.doc as u8, hex(&c.text));
-        let sent = child.stdin.write_all(line.as_bytes()).and_then(|_| child.stdin.flush());
-        if sent.is_err() {
-            let _ = child.proc.kill();
-            let _ = child.proc.wait();
-            child = spawn_child();
-            let _ = child.stdin.write_all(line.as_bytes()).and_then(|_| child.stdin.flush());
-        }
         let b = budget(c.text.len());
-        match child.lines.recv_timeout(b) {
-            Ok(l) => {
-                let f: Vec<&str> = l.split(' ').collect();
-                if f[0] == "ok" {
-                    out.push(Outcome::Ok {
-                        errors: f[1].parse().unwrap_or(0),
-                        too_deep: f[2] == "1",
-                        lossless: f[3] == "1",
-                        micros: f[4].parse().unwrap_or(0),
-                    });
-                } else {
-                    out.push(Outcome::Panic);
-                }
-            }
-            Err(std::sync::mpsc::RecvTimeoutError::Timeout) => {
-                let _ = child.proc.kill();
-                let _ = child.proc.wait();
-                out.push(Outcome::Timeout(b.as_millis()));
-                child = spawn_child();
-            }
-            Err(std::sync::mpsc::RecvTimeoutError::Disconnected) => {
-                let status = child.proc.wait().map(|s| format!("{s}")).unwrap_or_else(|e| format!("{e}"));
-                out.push(Outcome::Crash(status));
-                child = spawn_child();
+        let mut o = attempt(&mut child, c, b);
+        let mut tries = 1;
+        while tries < 3 && matches!(o, Outcome::Timeout(_)) {
+            o = attempt(&mut child, c, b);
+            tries += 1;
+        }
+        if matches!(o, Outcome::Crash(_)) {
+            let o2 = attempt(&mut child, c, b);
+            if !matches!(o2, Outcome::Crash(_)) {
+                o = o2;
             }
         }
+        out.push(o);
     }
     drop(child.stdin);
     let _ = child.proc.wait();
@@ -257,7 +283,7 @@ pub fn classify(c: &Case) -> Value {
 
 pub fn run(args: &Args, report: &mut Report) {
     let mut rng = Rng::new(args.seed);
-    report.rule = format!("child process, parse on a thread with a {} byte stack, budget 1.5 s + 40 us/byte; {} nesting ladders (closed and unclosed, Lua and doc types) at depths around the syntax-level limit and far beyond, large token soup, NUL/CR/BOM variants; language levels rotated. Non-trivial: nesting depth >= 50 or text >= 1 KiB; distinct by (text, level, doc)", STACK_BYTES, LADDERS.len());
+    report.rule = format!("child process, parse on a thread with a {} byte stack, budget 3 s + 40 us/byte, over budget only if three attempts in a row are; {} nesting ladders (closed and unclosed, Lua and doc types) at depths around the syntax-level limit and far beyond, large token soup, NUL/CR/BOM variants; language levels rotated. Non-trivial: nesting depth >= 50 or text >= 1 KiB; distinct by (text, level, doc)", STACK_BYTES, LADDERS.len());
     let mut cases: Vec<Case> = Vec::new();
     if let Some(p) = &args.replay {
         let v: Value = serde_json::from_str(&std::fs::read_to_string(p).expect("replay file")).expect("json");
@@ -294,6 +320,16 @@ pub fn run(args: &Args, report: &mut Report) {
         for _ in 0..n_big {
             let (t, _) = tgen::text(&mut rng, big_pieces);
             cases.push(Case { text: t, level: LEVELS[rng.below(8)], doc: true, label: "big-soup".into(), depth: 0 });
+        }
+        // structured families shared with C01 (rare prefixes, doc-tag lines in contexts, comments at the limit)
+        if !only_ladders {
+            let mut fam = crate::c01::prefix_family(args.thorough());
+            fam.extend(crate::c01::doc_family(false));
+            fam.extend(crate::c01::limit_ladders(false));
+            let step = if args.thorough() { 1 } else { 3 };
+            for (i, t) in fam.into_iter().enumerate().step_by(step) {
+                cases.push(Case { text: t, level: LEVELS[i % 8], doc: i % 5 != 0, label: "family".into(), depth: 0 });
+            }
         }
         // repeated statements: long flat files must stay linear
         let flat = if args.thorough() { 200_000 } else { 20_000 };
